@@ -312,7 +312,7 @@ pub fn hf_json(rng: &mut Rng, variant: usize) -> Vec<u8> {
     let model = match variant % 3 {
         0 => format!(
             r#"{{"type":"BPE","vocab":{{"<unk>":0,"a":1,"b":2,"ab":3,"<0x41>":4,"A":10,"{}":5,"€":7,"a€":8,"Ġa":9,"Ġ":{}}},"merges":["a b"],"byte_fallback":{},"unk_token":"<unk>"}}"#,
-            if odd(rng) { *rng.pick(&["<0xZZ>", "<0x4", "<0xÿ>", "<0x00>"]) } else { "<0x42>" },
+            if odd(rng) { *rng.pick(&["<0xZZ>", "<0x4", "<0xÿ>", "<0x00>", "<0xÃ(>", "<0x+F>", "<0xĠĠ>", "<0xÃ©>"]) } else { "<0x42>" },
             big_id,
             if variant % 2 == 0 { "true" } else { "false" }
         ),
